@@ -108,15 +108,16 @@ def y1(ctx, F, D):
     # promotion letters inside pgn_notation
     pg = F.fn(PGN)
     nf = sym_fn(pg, F)
-    arm = arm_of(nf, "Promotion")
-    letters = find_match_on(arm, SELF("new_piece")) if arm is not None else None
     n = 0
+    S_, E_ = SELF("start"), SELF("end")
     for t in ("Queen", "Rook", "Bishop", "Knight"):
-        got = None
-        if letters is not None:
-            v = hir.fold(letters, {SELF("new_piece"): ("variant", PT + t)}, D)
-            got = v[1] if v[0] == "lit" else hir.fmt(v, 40)
-            n += 1
+        # the last character of the text recorded for a quiet promotion to t (wherever the letter comes from: a match in place,
+        # a helper, the lower-case letter of the UCI text upper-cased)
+        env = {col_of(S_): ("lit", 4), row_of(S_): ("lit", 6), col_of(E_): ("lit", 4), row_of(E_): ("lit", 7),
+               ("call", "std::option::Option::<T>::is_some", (SELF("captured_piece"),)): ("lit", False), SELF("new_piece"): ("variant", PT + t)}
+        txt = eval_text(nf, "Promotion", env, D)
+        got = txt[-1] if txt else None
+        n += 1 if txt else 0
         ctx.check("C20.Y1", "promotion-letter:%s" % t, got == STD[t] and got == sib.get(t), fn=PGN, file=pg["file"],
                   line=pg["span"][0],
                   what="the promotion piece is recorded with a letter that differs from the letter table of the same piece",
